@@ -143,6 +143,7 @@ class Interp:
             return
         if isinstance(goal, bool):
             goal = z3.BoolVal(goal)
+        self.sum_lemmas(goal)
         o = Obl(name, kind, self.func_stack[0], lineno or self.cur_line,
                 list(self.pc), goal, tuple(self.decisions[:self.dptr]))
         o.interp = self
@@ -158,6 +159,35 @@ class Interp:
                               f"({name})")
         self.oblige(name, False, "safety")
         raise PathEnd()
+
+    def sum_lemmas(self, goal):
+        """Finite-sum congruence (Lean: Finset.sum_congr), instantiated for
+        every pair of sum terms one of which occurs in the goal:
+          lo=lo' & hi=hi' & (forall lo<=k<hi. a[k]=b[k])
+             ==> SUMA(a,lo,hi) = SUMA(b,lo',hi')"""
+        lib = self.V.lib
+        gs = _sum_terms([goal])
+        if not gs:
+            return
+        hs = _sum_terms(self.pc)
+        done = self.ghost.setdefault("sum_congr_done", set())
+        allt = {**hs, **gs}
+        for ida, a in gs.items():
+            for idb, b in allt.items():
+                if ida == idb:
+                    continue
+                key = (min(ida, idb), max(ida, idb))
+                if key in done:
+                    continue
+                done.add(key)
+                la, loa, hia = a.children()
+                lb, lob, hib = b.children()
+                k = z3.Int(self.namer.fresh("q_sc"))
+                ante = z3.And(loa == lob, hia == hib, z3.ForAll(
+                    [k], z3.Implies(z3.And(loa <= k, k < hia),
+                                    z3.Select(la, k) == z3.Select(lb, k))))
+                self.pc.append(z3.Implies(ante, a == b))
+                self.stats.lib_used.add("lemma:sum_congr")
 
     def feasible(self, cond):
         """Cheap over-approximate feasibility: quantifier-free part of the
@@ -1014,7 +1044,10 @@ class Interp:
         if isinstance(node.op, ast.Not):
             t = self.truth(v)
             return (not t) if isinstance(t, bool) else z3.Not(t)
-        return self.V.lib.unop(self, node.op, v)
+        r = self.V.lib.unop(self, node.op, v)
+        if isinstance(r, (SymSeq, SymStruct)):
+            return Cell("arr", r)
+        return r
 
     def e_BinOp(self, node, env):
         a = self.eval(node.left, env)
@@ -1022,7 +1055,10 @@ class Interp:
         return self.binop(node.op, a, b)
 
     def binop(self, op, a, b):
-        return self.V.lib.binop(self, op, a, b)
+        r = self.V.lib.binop(self, op, a, b)
+        if isinstance(r, (SymSeq, SymStruct)):
+            return Cell("arr", r)     # a fresh numpy array object
+        return r
 
     def e_Compare(self, node, env):
         left = self.eval(node.left, env)
@@ -1030,6 +1066,8 @@ class Interp:
         for op, rn in zip(node.ops, node.comparators):
             right = self.eval(rn, env)
             c = self.V.lib.compare(self, op, left, right)
+            if isinstance(c, SymSeq):
+                c = Cell("arr", c)
             res = c if res is None else self.V.lib.and_(self, res, c)
             left = right
         return res
@@ -1110,6 +1148,17 @@ class Interp:
                 body = bz(self.truth(self.eval(node.args[4], env2)))
                 return z3.ForAll([bi, bk], z3.Implies(
                     z3.And(0 <= bi, bi < n1, 0 <= bk, bk < n2), body))
+            if self.spec and fn.id == "Sum":
+                # Sum(k, lo, hi, body): sum over lo <= k < hi
+                lo = self.eval(node.args[1], env)
+                hi = self.eval(node.args[2], env)
+                name = node.args[0].id
+
+                def body(kv, node=node, env=env, name=name):
+                    env2 = dict(env)
+                    env2[name] = kv
+                    return self.eval(node.args[3], env2)
+                return self.V.lib.sum_term(self, lo, hi, body)
             if self.spec and fn.id == "old":
                 return self.eval_old(node.args[0], env)
             if self.spec and fn.id == "implies":
@@ -1137,6 +1186,12 @@ class Interp:
             if self.spec and fn.id == "final":
                 name = node.args[0].value
                 if self.final_env is None or name not in self.final_env:
+                    if len(node.args) > 1:
+                        # not bound on this path: an arbitrary value of the
+                        # declared type (only ever read under a guard that
+                        # is false on such paths)
+                        return self.fresh(node.args[1].value,
+                                          f"unbound_{name}")
                     raise SpecError(f"final({name!r}): no such local at "
                                     f"return")
                 return self.final_env[name]
@@ -1447,9 +1502,68 @@ class Interp:
             bvs.append(bv)
         body = bz(self.truth(self.eval(node.args[3], env2)))
         rng = z3.And(*[z3.And(lo <= bv, bv < hi) for bv in bvs])
+        body = self.ctx_simplify(rng, body)
         if kind == "forall":
             return z3.ForAll(bvs, z3.Implies(rng, body))
         return z3.Exists(bvs, z3.And(rng, body))
+
+    def ctx_simplify(self, ctx, body):
+        """Resolve, under the assumption `ctx` (+ the quantifier-free length
+        facts of the path), the index-normalisation if-then-else *terms*
+        that slicing introduces: If(c, a, b) becomes a when ctx => c and b
+        when ctx => not c.  Semantics-preserving under ctx, which is how the
+        result is used (the quantifier's range guard)."""
+        if _term_size(body) < 10 or "If(" not in str(body):
+            return body
+        try:
+            sol = z3.Solver()
+            sol.set("timeout", 300)
+            sol.add(ctx)
+            for f in self.pc[:120]:
+                if not _has_quant(f) and _term_size(f, 40) < 30:
+                    sol.add(f)
+            cache = {}
+
+            def implied(c):
+                sol.push()
+                sol.add(z3.Not(c))
+                r = sol.check()
+                sol.pop()
+                return r == z3.unsat
+
+            def find_ites(t, out, seen):
+                k = t.get_id()
+                if k in seen:
+                    return
+                seen.add(k)
+                if z3.is_quantifier(t) or z3.is_var(t) or not z3.is_app(t):
+                    return
+                if t.decl().kind() == z3.Z3_OP_ITE and not z3.is_bool(t):
+                    out.append(t)
+                for c in t.children():
+                    find_ites(c, out, seen)
+
+            cur = body
+            for _round in range(6):
+                ites = []
+                find_ites(cur, ites, set())
+                pairs = []
+                for t in ites:
+                    c = t.arg(0)
+                    if c.get_id() not in cache:
+                        cache[c.get_id()] = True if implied(c) else (
+                            False if implied(z3.Not(c)) else None)
+                    d = cache[c.get_id()]
+                    if d is True:
+                        pairs.append((t, t.arg(1)))
+                    elif d is False:
+                        pairs.append((t, t.arg(2)))
+                if not pairs:
+                    break
+                cur = z3.simplify(z3.substitute(cur, *pairs))
+            return cur
+        except z3.Z3Exception:
+            return body
 
     def unwrap(self, v):
         return v.read() if isinstance(v, Cell) else v
@@ -1504,6 +1618,60 @@ class ModuleRef:
 
     def __repr__(self):
         return f"<Module {self.name}>"
+
+
+def _sum_terms(fs):
+    out = {}
+    seen = set()
+    stack = list(fs)
+    while stack:
+        t = stack.pop()
+        if t.get_id() in seen:
+            continue
+        seen.add(t.get_id())
+        if z3.is_quantifier(t):
+            stack.append(t.body())
+            continue
+        if z3.is_app(t):
+            if t.decl().name() == "SUMA" and not _has_var(t):
+                out[t.get_id()] = t
+            stack.extend(t.children())
+    return out
+
+
+def _has_var(t):
+    seen = set()
+    stack = [t]
+    while stack:
+        u = stack.pop()
+        if u.get_id() in seen:
+            continue
+        seen.add(u.get_id())
+        if z3.is_var(u):
+            # a de Bruijn variable not bound inside t?  (lambda bodies bind
+            # their own) -- conservative: look only outside lambdas
+            return True
+        if z3.is_quantifier(u):
+            continue
+        stack.extend(u.children())
+    return False
+
+
+def _term_size(t, limit=400):
+    n = 0
+    seen = set()
+    stack = [t]
+    while stack and n < limit:
+        u = stack.pop()
+        if u.get_id() in seen:
+            continue
+        seen.add(u.get_id())
+        n += 1
+        if z3.is_quantifier(u):
+            stack.append(u.body())
+        else:
+            stack.extend(u.children())
+    return n
 
 
 def _has_quant(f):
